@@ -24,6 +24,7 @@ import (
 	"strings"
 	"sync/atomic"
 	"testing"
+	"time"
 
 	"github.com/cloudwego/eino/compose"
 	"github.com/cloudwego/eino/internal/vkit"
@@ -844,7 +845,24 @@ func outcomeKey(r *result20) string {
 	return fmt.Sprintf("first-failing-call=%d compile-ok=%v", first, comp)
 }
 
+var c20Rec *vkit.Recorder
+
 func checkC20(c CaseC20) (*vkit.Failure, vkit.Meta) {
+	if c20Rec == nil {
+		return checkC20Inner(c)
+	}
+	c20Rec.Current(c)
+	defer c20Rec.ClearCurrent()
+	var m vkit.Meta
+	f := vkit.Watchdog(c20Rec, c, 40*time.Second, nil, func() *vkit.Failure {
+		var f *vkit.Failure
+		f, m = checkC20Inner(c)
+		return f
+	})
+	return f, m
+}
+
+func checkC20Inner(c CaseC20) (*vkit.Failure, vkit.Meta) {
 	m := vkit.Meta{Labels: []string{"builder:" + c.Builder}}
 	if len(c.Ops) == 0 {
 		return nil, m
@@ -1173,10 +1191,11 @@ func genC20(t *rapid.T) CaseC20 {
 }
 
 func TestC20(t *testing.T) {
-	rec := vkit.NewRecorder("C20")
-	vkit.Prop(t, rec, genC20, checkC20)
+	c20Rec = vkit.NewRecorder("C20")
+	vkit.Prop(t, c20Rec, genC20, checkC20)
 }
 
 func TestC20Replay(t *testing.T) {
+	c20Rec = vkit.NewRecorder("C20")
 	vkit.Replay(t, "C20", checkC20)
 }
